@@ -125,7 +125,8 @@ def scenarios(tier: str) -> list[tuple]:
     for p in [(("create_waiting",), ("get_all_trials",), ("claim_new", "finish_new")),
               (("create_trial",), ("get_all_trials",), ("finish_new",)),
               (("create_waiting", "get_new"), ("get_waiting",), ("claim_new", "finish_new"))][:2 if tier == "quick" else None]:
-        out.append(("cached+foreign", p, 1 if tier == "quick" else 2))
+        # (bound 2 only for the smallest program: three threads over SQLite cost ~30 ms per schedule)
+        out.append(("cached+foreign", p, 2 if (tier == "thorough" and len(p[0]) + len(p[2]) <= 2) else 1))
     # Part B: processes / threads at SQL-statement level on one SQLite file
     for cfg in SQL_CONFIGS:
         bound = 1 if tier == "quick" else 2
